@@ -12,6 +12,9 @@ pub struct Scenario {
     pub busylvl: bool,
     pub fault: Option<u64>,
     pub scribble: bool,
+    /// `bus=fifo`: the SpiBus returns from `write` before the bytes are on the wire (embedded-hal 1.0
+    /// allows it); they reach the chips at the next `flush`, with the pin levels of that moment
+    pub fifo: bool,
     pub ops: Vec<Vec<String>>,
     pub raw: String,
 }
@@ -62,6 +65,7 @@ pub fn parse_line(line: &str) -> Result<Scenario, String> {
         busylvl,
         fault,
         scribble,
+        fifo: kv.get("bus").copied() == Some("fifo"),
         ops,
         raw: line.to_string(),
     })
